@@ -64,16 +64,24 @@ func VH_C07_RenameTarget_sym() {
 	}
 }
 
-// move, delete, alias: every path handed to the file store stays inside the root
-func VH_C07_MoveDeleteAliasTargets() {
+// move, delete, alias: every path handed to the file store stays inside the root. One of the three client-supplied
+// strings (name, path item, destination item) is arbitrary bytes of every length up to 2 (so "..", "/", "." ... are
+// covered in every position), the other two are plain names.
+func c07FileOp(op int) {
 	vUnroll(200)
 	e := c07Env()
 	vAssume(e.fs.exists)
-	name := vBytesEach("name", 2)
-	item := vBytesEach("item", 2)
-	dest := vBytesEach("dest", 2)
+	name, item, dest := []byte("a"), []byte("b"), []byte("c")
+	switch vChoice("hostile_position", 3) {
+	case 0:
+		name = vBytesEach("name", 2)
+	case 1:
+		item = vBytesEach("item", 2)
+	default:
+		dest = vBytesEach("dest", 2)
+	}
 	fields := []hotline.Field{f(hotline.FieldFileName, name), f(hotline.FieldFilePath, vPathField(string(item))), f(hotline.FieldFileNewPath, vPathField(string(dest)))}
-	switch vChoice("op", 3) {
+	switch op {
 	case 0:
 		t := hotline.NewTransaction(hotline.TranMoveFile, e.cc.ID, fields...)
 		HandleMoveFile(e.cc, &t)
@@ -89,6 +97,10 @@ func VH_C07_MoveDeleteAliasTargets() {
 		vAssert("file_op_path_in_root", c07Within("/r", p))
 	}
 }
+
+func VH_C07_MoveTargets()   { c07FileOp(0) }
+func VH_C07_DeleteTargets() { c07FileOp(1) }
+func VH_C07_AliasTargets()  { c07FileOp(2) }
 
 // account files: whatever the login / new login bytes are, every file the account manager touches lies inside
 // the accounts directory
